@@ -7,7 +7,7 @@ import hgxv
 RULE = ("random DirectedHypergraph instances (3-9 nodes from a sparse integer or string universe, 1-12 hyperedges with "
         "disjoint non-empty sides, total size 2-6, reverse hyperedges and partial reversals injected), every bound "
         "m in 2..7, every node, size filters none/2..6 and the equivalent order filters; a case is distinct by its "
-        "canonical hyperedge list, non-trivial when exact, strong and weak reciprocity are pairwise different for some size")
+        "canonical hyperedge list; instances are reached through four kinds of histories (plain insertion, detours with removed temporary hyperedges and re-insertions, the original of a mutated copy, the copy of a mutated original); non-trivial when exact, strong and weak reciprocity are pairwise different for some size")
 ASSUMPTIONS = ["hyperedges have disjoint non-empty source and target sets (the property's quantifier)",
                "labels are mapped to their rank in sorted order before they reach the model"]
 TRUSTED = ["float division c/t of two ints is the correctly rounded quotient (compared with float(Fraction(c, t)))"]
@@ -70,18 +70,72 @@ def oracle_tables(E, m):
     return out
 
 
-def check_one(ctx, drv, labels, edges, iso):
+def check_one(ctx, drv, labels, edges, iso, route="plain"):
     from hypergraphx import DirectedHypergraph
     from hypergraphx.measures.directed import (exact_reciprocity, strong_reciprocity, weak_reciprocity,
                                                hyperedge_signature_vector, in_degree, out_degree,
                                                in_degree_sequence, out_degree_sequence)
-    case = {"labels": labels, "edges": edges, "isolated": iso}
+    case = {"labels": labels, "edges": edges, "isolated": iso, "route": route}
     h = DirectedHypergraph()
     for x in iso:
         h.add_node(x)
-    for e in edges:
-        h.add_edge(e)
+    # the instance is reached through one of several histories: every DirectedHypergraph a user can hold is in the
+    # property's quantifier, not only freshly built ones
+    seen_c, uniq = set(), []
+    for e in edges:   # the generator may propose the same hyperedge twice (in another node order): removals use each once
+        if canon(e) not in seen_c:
+            seen_c.add(canon(e))
+            uniq.append(e)
+    try:
+        if route == "plain" or len(uniq) < 2:
+            for e in edges:
+                h.add_edge(e)
+        elif route == "detour":
+            # temporary hyperedges of another size inserted first and removed again (internal ids get gaps), the first
+            # half removed and re-inserted after the rest (listing order changes, ids are not dense)
+            temps = [e for e in [((labels[0],), (labels[1],)), ((labels[0],), tuple(labels[1:3]))]
+                     if len(set(e[0]) | set(e[1])) == len(e[0]) + len(e[1]) and canon(e) not in {canon(f) for f in edges}]
+            for t in temps:
+                h.add_edge(t)
+            half = uniq[: len(uniq) // 2]
+            for e in half:
+                h.add_edge(e)
+            for t in temps:
+                h.remove_edge(t)
+            for e in edges:
+                if canon(e) not in {canon(f) for f in half}:
+                    h.add_edge(e)
+            for e in half[:2]:
+                h.remove_edge(e)
+            for e in half[:2]:
+                h.add_edge(e)
+        elif route == "copy":
+            # the instance is the ORIGINAL of a copy that was mutated afterwards (and must not notice)
+            for e in edges:
+                h.add_edge(e)
+            c = h.copy()
+            for e in uniq[:2]:
+                c.remove_edge(e)
+            c.add_edge(((labels[-1],), (labels[0],)))
+            c.add_node("zz-copy-only")
+        elif route == "copied":
+            # the instance is a COPY whose original was mutated afterwards
+            o = DirectedHypergraph()
+            for x in iso:
+                o.add_node(x)
+            for e in edges:
+                o.add_edge(e)
+            h = o.copy()
+            for e in uniq[:2]:
+                o.remove_edge(e)
+            o.add_edge(((labels[-1],), (labels[0],)))
+    except Exception as ex:
+        ctx.violation(case, f"building the hypergraph through the '{route}' history raised {type(ex).__name__}: {ex}")
+        return
     E = [canon(e) for e in h.get_edges()]
+    if sorted(E) != sorted({canon(e) for e in edges}):
+        ctx.violation(case, f"after the '{route}' history get_edges() lists {sorted(E)}, expected the inserted hyperedges")
+        return
     nodes = list(h.get_nodes())
     rank = {x: i for i, x in enumerate(sorted(set(labels)))}
     key = repr((sorted(E), sorted(nodes, key=repr)))
@@ -169,7 +223,7 @@ def run(ctx):
     n = ctx.scale(150, 3000)
     for _ in range(n):
         labels, edges, iso = gen(ctx.rng)
-        check_one(ctx, drv, labels, edges, iso)
+        check_one(ctx, drv, labels, edges, iso, ctx.rng.choice(["plain", "plain", "detour", "detour", "copy", "copied"]))
         if ctx.too_many() or (ctx.time_left() is not None and ctx.time_left() < 5):
             break
 
@@ -178,4 +232,4 @@ def replay(ctx, case):
     drv = ctx.driver() if ctx.model_available else None
     labels = case["labels"]
     edges = [(tuple(e[0]), tuple(e[1])) for e in case["edges"]]
-    check_one(ctx, drv, labels, edges, case.get("isolated", []))
+    check_one(ctx, drv, labels, edges, case.get("isolated", []), case.get("route", "plain"))
